@@ -57,7 +57,9 @@ pgp_signed = re.compile(r"""
     # cleartext messages
 
     (^-{5}BEGIN\ PGP\ SIGNED\ MESSAGE-{5}(?:\r?\n)
-       (Hash:\ (?P<hashes>[A-Za-z0-9\-,]+)(?:\r?\n){2})?
+       # an optional Hash header, then the empty line that separates the armor
+       # headers from the signed text (also present without a Hash header)
+       ((?:Hash:\ (?P<hashes>[A-Za-z0-9\-,]+)(?:\r?\n))?(?:\r?\n))?
        # each line is matched in one way only: nested quantifiers such as
        # (.*\r?\n)* match a CRLF line in two ways and take exponential time
        # on a text whose signature block does not match
